@@ -35,10 +35,12 @@ def one(patch, slot):
 if __name__ == "__main__":
     summary = "--props" in sys.argv      # one line per patch: the properties that alarm
     ps = [os.path.abspath(p) for p in sys.argv[1:] if p != "--props"]
-    with cf.ThreadPoolExecutor(max_workers=12) as ex:
-        futs = [ex.submit(one, p, "-mut%d" % (i % 12)) for i, p in enumerate(ps)]
-        for f in futs:
-            p, st, keys = f.result()
+    F.build_driver()
+    import multiprocessing as mp
+    with mp.get_context("fork").Pool(14) as pool:
+        results = pool.starmap(one, [(p, "-ev%d" % (i % 14)) for i, p in enumerate(ps)], chunksize=1)
+    if True:
+        for (p, st, keys) in results:
             if summary:
                 print(p.replace("/tmp/", ""), st, ",".join(sorted({k.split("/")[0] for k in keys})))
                 continue
